@@ -79,7 +79,7 @@ func prov(v ssa.Value, d int, seen map[ssa.Value]bool) []string {
 	case *ssa.Field:
 		if isKeyResType(x.X.Type()) {
 			st := x.X.Type().Underlying().(*types.Struct)
-			return []string{"keys." + st.Field(x.Field).Name()}
+			return []string{"keys." + world.CanonField(st.Field(x.Field))}
 		}
 	case *ssa.Slice:
 		if al, ok := x.X.(*ssa.Alloc); ok {
